@@ -204,3 +204,21 @@ pub fn any_outcome() -> Result<u32, u32> {
 pub fn any_script() -> Script {
     Script { outcomes: [any_outcome(), any_outcome(), any_outcome(), any_outcome()], never: kani::any(), latency: None, lats: [core::time::Duration::ZERO; 4], use_lats: false, never_mask: 0, immediate: false, ready: 0 }
 }
+
+/// C20, readiness clause: a layer's `poll_ready` is the wrapped service's: it asks the inner
+/// service (once), is pending while the inner service is pending, and surfaces the inner
+/// service's readiness error as a readiness error; nothing is forwarded meanwhile.
+pub fn check_readiness_passthrough<S: tower::Service<u32>>(s: &mut S) {
+    let r: u8 = kani::any();
+    kani::assume(r == 1 || r == 2);
+    mon().script.ready = r;
+    let before = mon().ready_polls;
+    let rdy = poll_ready_once(s);
+    assert!(mon().ready_polls == before + 1, "[C20.readiness_asks_inner] readiness is decided by asking the wrapped service");
+    if r == 1 {
+        assert!(rdy.is_pending(), "[C20.pending_readiness_passthrough] while the wrapped service is not ready the layer is not ready");
+    } else {
+        assert!(matches!(rdy, Poll::Ready(Err(_))), "[C20.readiness_error_passthrough] a readiness error of the wrapped service surfaces as a readiness error");
+    }
+    assert!(mon().calls == 0, "[C20.readiness_forwards_nothing] polling readiness forwards no request");
+}
